@@ -90,6 +90,9 @@ package jet
 //@   nopanic
 //@   loop 0 invariant -1 <= rangeindex
 //@   ensures err == nil ==> t != nil && Canon(t.Name) && exists(j, 0, len(s.extensions), t.Name == templatePath + s.extensions[j])
+//@   loop 0 invariant [the-first-existing-candidate-decides] {C16} ncalls("(*Set).loadFromFile") == 0
+//@   check [a-load-failure-of-the-first-existing-candidate-is-the-answer] {C16} ncalls("(*Set).loadFromFile") >= 1 ==> ncalls("(*Set).loadFromFile") == 1 && t == lastret("(*Set).loadFromFile", 0) && err == lastret("(*Set).loadFromFile", 1)
+//@   check [nothing-found-is-an-error] {C16} ncalls("(*Set).loadFromFile") == 0 ==> err != nil
 //@   callsite (Loader).Exists 0 requires [loader-paths-are-canonical] {C15} Canon(templatePath) && l == s.loader && templatePath == caller.templatePath + s.extensions[caller.rangeindex + 1]
 //@   callsite (*Set).loadFromFile 0 requires [first-existing-extension-wins] {C16} lastret("(Loader).Exists", 0) && templatePath == caller.templatePath + s.extensions[caller.rangeindex + 1] && cacheAfterParsing == caller.cacheAfterParsing
 
